@@ -111,6 +111,7 @@ type RPCLog struct {
 	ClientDone   bool
 	ClientStart  bool
 	HandlerCtx   context.Context
+	HandlerStr   drpc.Stream // handler's stream
 	Stream       drpc.Stream // client stream (streaming RPCs)
 	Cancel       context.CancelFunc
 }
@@ -166,6 +167,23 @@ func (l *RPCLog) CancelRPC() {
 	if c != nil {
 		c()
 	}
+}
+
+// CloseSide calls Close on one side's stream from the calling goroutine (an application goroutine
+// other than the one running the script). It reports false if that side has no stream yet.
+func (l *RPCLog) CloseSide(side byte) bool {
+	l.mu.Lock()
+	st := l.Stream
+	if side == 's' {
+		st = l.HandlerStr
+	}
+	l.mu.Unlock()
+	if st == nil {
+		return false
+	}
+	ev := l.begin(side, "close-other-goroutine", 0, 0)
+	l.end(ev, st.Close())
+	return true
 }
 
 // HandlerState reports whether the handler started and whether it returned.
@@ -268,6 +286,7 @@ func (x *Exec) handle(stream drpc.Stream, rpc string) error {
 	l.mu.Lock()
 	l.HandlerRan = true
 	l.HandlerCtx = stream.Context()
+	l.HandlerStr = stream
 	l.HandlerHasMD = ok
 	l.HandlerMeta = map[string]string{}
 	for k, v := range md {
